@@ -1,7 +1,7 @@
 (* Props/C21.v — Aggregates agree with their definitions.
    Only statements, `exact`, and Print Assumptions. *)
 From Coq Require Import Sorting.Permutation.
-From NDB Require Import Base.Bytes Cypher.Value Cypher.Compare Cypher.Arith Cypher.Agg Cypher.Agg_proofs.
+From NDB Require Import Base.Bytes Cypher.Value Cypher.Compare Cypher.Arith Cypher.Agg Cypher.Agg_proofs Cypher.Order_proofs Cypher.ListCompare_proofs.
 
 (* count-star is the number of rows; count / collect take the non-null values; every DISTINCT
    variant is the plain aggregate of the distinct non-null values, which are input values *)
@@ -63,3 +63,13 @@ Definition C21_zerokey_refuted_statement : Prop :=
 Theorem C21_zerokey_refuted : C21_zerokey_refuted_statement.
 Proof. exact zero_keys_separate. Qed.
 Print Assumptions C21_zerokey_refuted.
+
+(* min(v) is <= and max(v) is >= every non-null value of the group in the ORDER BY order, for
+   groups whose values contain no temporal string (any nesting, NaN included) *)
+Definition C21_min_max_extremal_statement : Prop :=
+  forall tp vs, Forall (og tp) (non_null vs) ->
+    Forall (fun x => cle' (order_cmp tp) (agg_min tp vs) x = true) (non_null vs) /\
+    Forall (fun x => cle' (order_cmp tp) x (agg_max tp vs) = true) (non_null vs).
+Theorem C21_min_max_extremal : C21_min_max_extremal_statement.
+Proof. exact min_max_extremal. Qed.
+Print Assumptions C21_min_max_extremal.
